@@ -9,6 +9,7 @@ CONSTANTS
   KindChoices = {"async", "blocking"}
   BodyPanics = TRUE
   BodyUsesPool = FALSE
+  JoinerOnPool = FALSE
 INIT TraceInit
 NEXT TraceNext
 POSTCONDITION Accept
